@@ -114,7 +114,8 @@ class Ref:
 
 def make_block(int_shape, tag, kind):
     if not int_shape:
-        return tag
+        # without internal axes an element is an arbitrary object: a string, or a (same length) list of strings
+        return [tag + "/0", tag + "/1"] if kind == "list" else tag
     arr = np.empty(int_shape, dtype=object)
     for i in np.ndindex(*int_shape):
         arr[i] = f"{tag}@{','.join(map(str, i))}"
